@@ -661,7 +661,7 @@ impl Property for C16 {
         if thorough {
             40_000
         } else {
-            1_600
+            4_800
         }
     }
     fn run_one(&self, seed: u64, index: u64, thorough: bool) -> OneResult {
